@@ -318,7 +318,7 @@ def eval_matsubara(case):
                 model = -sp.integrate_m(kern, drop_above=w0)
                 gmod[name] = model
                 recs.append(("matsubara-value", name, dev, tol, float(v), ref))
-                affected[name] = abs(model - ref) > 0.01 * tol
+                affected[name] = abs(model - ref) > 0.01 * tol and abs(float(v) - model) < dev
                 if dev > tol:
                     pinned[name] = bool(abs(float(v) - model) <= tol)
             for k in range(1, nst):
@@ -346,7 +346,7 @@ def eval_matsubara(case):
                 model = sp.integrate_m(kern, drop_above=w0)
                 gmod[frac] = model
                 recs.append(("matsubara-value", name, dev, tol, float(v), ref))
-                affected[name] = abs(model - ref) > 0.01 * tol
+                affected[name] = abs(model - ref) > 0.01 * tol and abs(float(v) - model) < dev
                 if dev > tol:
                     pinned[name] = bool(abs(float(v) - model) <= tol)
             for fa, fb in ((0.0, 1.0), (0.25, 0.75)):
@@ -584,7 +584,8 @@ def run(tier, seed):
                           "1.49e-8 are the tolerances the library passes to QUADPACK. max_dev is the largest deviation of a "
                           "passing comparison in units of its own tolerance (so tolerance = 1); Matsubara comparisons in "
                           "which dropping exp(-w(beta-tau)) above w = 36.04 T changes the exact value by more than 1% of the "
-                          "tolerance are left out of this head-room statistic (they fail, or pass with a partial effect)",
+                          "tolerance AND the library value is closer to that guard model than to the exact value are left "
+                          "out of this head-room statistic (they fail, or pass with a partial effect of that defect)",
         "matsubara_comparisons_materially_affected_by_overflow_guard": n_affected,
         "worst_passing_ratio_per_check": {k: {"dev_over_tol": v[0], "case": v[1]} for k, v in sorted(worst.items())},
         "calibration_real_time_cells": calib,
